@@ -60,7 +60,7 @@ import (
 
 type respCase struct {
 	Seed uint64   `json:"seed"`
-	Kind string   `json:"kind,omitempty"` // "" = random; directed: "empty-leaf", "root-missing", "skip-boundary", "dedup-two"
+	Kind string   `json:"kind,omitempty"` // "" = random; directed: "empty-leaf", "root-missing", "skip-boundary", "dedup-two", "ignore-missing"
 	Desc string   `json:"desc,omitempty"`
 	Tags []string `json:"tags,omitempty"`
 }
@@ -369,6 +369,43 @@ func genWorld(c respCase) (*world, error) {
 	case "root-missing":
 		w.reqs = w.reqs[:1]
 		w.store[w.reqs[0].root] = stMissing
+	case "ignore-missing":
+		// the only missing link of the traversal is a visited non-root link that do-not-send-cids names:
+		// it must still be reported Missing and the response must end complete-partial
+		for i := range w.store {
+			w.store[i] = stPresent
+		}
+		w.reqs = w.reqs[:1]
+		rs := w.reqs[0]
+		rs.root, rs.dedup, rs.hasSkip = 0, 0, false
+		if c.Seed%3 == 0 {
+			rs.dedup = 1
+		}
+		rs.sel, rs.selDesc = dag.AllSelector(), "all-recursive"
+		var err error
+		if rs.plan, rs.planSize, err = harvest(w.d, 0, rs.sel, segs); err != nil {
+			return nil, err
+		}
+		var visited []int
+		var walk func(p *planNode)
+		walk = func(p *planNode) {
+			if p.blk != 0 {
+				visited = append(visited, p.blk)
+			}
+			for _, k := range p.kids {
+				walk(k)
+			}
+		}
+		walk(rs.plan)
+		if len(visited) > 0 {
+			m := visited[r.Intn(len(visited))]
+			w.store[m] = stMissing
+			rs.hasIgn = true
+			rs.ignore = []int{m}
+			if r.P(1, 2) {
+				rs.ignore = append(rs.ignore, len(w.d.Blocks)) // plus a CID outside the DAG
+			}
+		}
 	case "skip-boundary":
 		for i := range w.store {
 			if w.store[i] != stMissing {
@@ -940,6 +977,39 @@ func run(c *drv.Ctx) error {
 				tags = append(tags, "store-hard-error")
 			}
 		}
+		for _, rs := range wd.reqs {
+			if !rs.hasIgn || wd.store[rs.root] != stPresent {
+				continue
+			}
+			inIgn := func(b int) bool {
+				for _, x := range rs.ignore {
+					if x == b {
+						return true
+					}
+				}
+				return false
+			}
+			nMiss, allIgnored, hard := 0, true, false
+			var walk func(p *planNode)
+			walk = func(p *planNode) {
+				switch wd.store[p.blk] {
+				case stMissing:
+					nMiss++
+					allIgnored = allIgnored && inIgn(p.blk)
+					return
+				case stReadErr, stCorrupt:
+					hard = true
+					return
+				}
+				for _, k := range p.kids {
+					walk(k)
+				}
+			}
+			walk(rs.plan)
+			if nMiss > 0 && allIgnored && !hard {
+				tags = append(tags, "only-missing-links-are-in-do-not-send-cids")
+			}
+		}
 		if emptyPresent {
 			tags = append(tags, "empty-block-present")
 		}
@@ -996,7 +1066,7 @@ func run(c *drv.Ctx) error {
 		rc := respCase{Seed: c.R.U64()}
 		tag := "random"
 		if i%10 == 9 {
-			rc.Kind = []string{"empty-leaf", "root-missing", "skip-boundary", "dedup-two"}[(i/10)%4]
+			rc.Kind = []string{"empty-leaf", "root-missing", "skip-boundary", "dedup-two", "ignore-missing"}[(i/10)%5]
 			tag = "directed"
 		}
 		if err := add(rc, tag); err != nil {
